@@ -2,6 +2,7 @@ import ColoVerif.Proofs.SpreadCoord
 import ColoVerif.Proofs.SpreadGrid
 import ColoVerif.Proofs.SpreadExport
 import ColoVerif.Proofs.SpreadFree
+import ColoVerif.Proofs.GlobalLoop
 /-
 C06 — global placement stays inside the placement area and exports the blend.
 
@@ -13,6 +14,12 @@ They are **partial with respect to single precision**: the model evaluates the C
 expressions in `Rat`.  What is not proved (finiteness of the conjugate-gradient iterates,
 float rounding — a coordinate may round onto a bin edge —, absence of exceptions) is monitored
 by the direct oracle of `harness/h_C06.cpp`; see `tools/props/C06.py`.
+
+The last block is about the control logic of `GlobalPlacer::run` (`ColoVerif/Model/GlobalLoop.lean`):
+the float solves and values enter as an oracle trace, everything else (initial solves, stop test,
+penalty-update back-off, inner solves, the three geometric recurrences, final `runUB`, the
+exception of `checkFinitePlacement`) is the model `GlobalLoop.run`, which `drv_C06` replays against
+the callbacks of `Circuit::placeGlobal` and, with hook H5, against the logged per-iteration floats.
 -/
 namespace ColoVerif.C06
 open ColoVerif ColoVerif.Spread
@@ -245,5 +252,149 @@ theorem export_blend_observable (lb ub beta : Rat) (w : Int) :
   obtain ⟨q1, q2⟩ := k1 beta ((roundHalfAway (ub - (1 / 2) * (w : Rat)) : Rat) - (ub - (1 / 2) * (w : Rat)))
     (by linarith) (by linarith)
   constructor <;> nlinarith
+
+/-! ### the control loop of `GlobalPlacer::run` -/
+
+open ColoVerif.GlobalLoop in
+/-- The loop terminates within the step limit, whatever the float code returns and whatever the
+roundings are: at most `maxNbSteps - nbInitialSteps` iterations, and correspondingly bounded numbers
+of callbacks (UpperBound: one per iteration plus the final one; LowerBound: the initial solves plus
+`nbStepsBeforeRoughLegalization` per iteration; PenaltyUpdate: at most one per iteration). -/
+theorem loop_terminates (R : Rounding) (p : Params) (o : Oracle) :
+    (run R p o).iterations ≤ p.maxNbSteps - p.nbInitialSteps ∧
+    (run R p o).updates ≤ (run R p o).iterations ∧
+    (run R p o).events.count .ub ≤ (p.maxNbSteps - p.nbInitialSteps) + 1 ∧
+    (run R p o).events.count .lb ≤ (p.nbInitialSteps + 1) + (p.maxNbSteps - p.nbInitialSteps) * p.nbInner ∧
+    (run R p o).events.count .pu ≤ p.maxNbSteps - p.nbInitialSteps ∧
+    (run R p o).events.length ≤
+      (p.nbInitialSteps + 1) + (p.maxNbSteps - p.nbInitialSteps) * p.nbInner + 2 * (p.maxNbSteps - p.nbInitialSteps) + 1 := by
+  obtain ⟨a, b, c, d, e⟩ := runWith_bounds (stopTest R p o) R p o
+  refine ⟨a, b, c, d, e, ?_⟩
+  rw [length_eq_counts]
+  show List.count Ev.lb (runWith (stopTest R p o) R p o).events + List.count Ev.ub (runWith (stopTest R p o) R p o).events +
+    List.count Ev.pu (runWith (stopTest R p o) R p o).events ≤ _
+  omega
+
+open ColoVerif.GlobalLoop in
+/-- The repaired defect (commit 0d89981): when the initial solves succeed and the first upper bound
+has no wirelength (`ub ≤ 0`), the loop is left at its first iteration by the `noWirelength` clause,
+whatever `lb`, `dist` and the tolerances are.  The update block is never executed: the loop
+variables keep their initial values, and the callbacks are the initial LowerBounds, the iteration's
+UpperBound and the final UpperBound. -/
+theorem zero_wirelength_exits_first_step (R : Rounding) (p : Params) (o : Oracle)
+    (hinit : ∀ i, i ≤ p.nbInitialSteps → o.initOk i = true) (hsteps : p.nbInitialSteps < p.maxNbSteps)
+    (hub : o.ub 0 ≤ 0) :
+    (run R p o).exit = .stop .noWirelength ∧ (run R p o).iterations = 1 ∧ (run R p o).updates = 0 ∧
+    (run R p o).events = List.replicate (p.nbInitialSteps + 1) .lb ++ [.ub, .ub] ∧
+    (run R p o).trail = [initVars R p o] := by
+  obtain ⟨f, hf⟩ : ∃ f, p.maxNbSteps - p.nbInitialSteps = f + 1 := ⟨p.maxNbSteps - p.nbInitialSteps - 1, by omega⟩
+  have e : run R p o = finish (initSt R p o) [.ub] (.stop .noWirelength) 1 0 := by
+    unfold run
+    rw [runWith_ok _ R p o hinit, hf]
+    exact loopWith_stop_first R p o f _ hub
+  rw [e]
+  simp [finish, initSt]
+
+open ColoVerif.GlobalLoop in
+/-- The loop variables follow the recurrences: when the initial solves succeed, the trail of
+`(penalty_, penaltyCutoffDistance_, approximationDistance_)` recorded by the loop is, entry `k`, the
+initial values updated `k` times (`varsAfter`, with the roundings `R` of the C++ arithmetic), for
+`k = 0 … updates`. -/
+theorem recurrences_rounded (R : Rounding) (p : Params) (o : Oracle)
+    (hinit : ∀ i, i ≤ p.nbInitialSteps → o.initOk i = true) :
+    (run R p o).trail = (List.range ((run R p o).updates + 1)).map (varsAfter R p o) :=
+  runWith_trail (stopTest R p o) R p o hinit
+
+open ColoVerif.GlobalLoop in
+/-- …and in exact arithmetic the recurrences are the closed forms `penalty · f^k`,
+`avgLen · cutoff · g^k`, `avgLen · approx · h^k`. -/
+theorem recurrences_closed_form (p : Params) (o : Oracle)
+    (hinit : ∀ i, i ≤ p.nbInitialSteps → o.initOk i = true) :
+    (run Rounding.exact p o).trail = (List.range ((run Rounding.exact p o).updates + 1)).map
+      (fun k => ⟨penaltyAfter p k, cutoffAfter p o.avgLen k, approxAfter p o.avgLen k⟩) := by
+  rw [recurrences_rounded Rounding.exact p o hinit]
+  exact List.map_congr_left (fun k _ => varsAfter_exact p o k)
+
+open ColoVerif.GlobalLoop in
+/-- Soundness of the KF-C06-1 classifier `drift_out_of_numeric_box` as an explanation: if it is
+false for every `k` up to the number of completed updates, then (exact arithmetic, positive average
+cell length) the loop variables were inside the numeric box at every point of the run: approximation
+distance in `[0.1, 1e3]` and cutoff distance `≥ 0.1` average cell lengths, penalty below `2^128`,
+penalty-to-cutoff ratio strictly between `2^-24` and `2^64`.  A failure on such a run is therefore not
+explained by the recurrences. -/
+theorem drift_box_sound (p : Params) (o : Oracle)
+    (hinit : ∀ i, i ≤ p.nbInitialSteps → o.initOk i = true) (havg : 0 < o.avgLen)
+    (h : ∀ k, k ≤ (run Rounding.exact p o).updates → driftOutOfBox p k = false) :
+    ∀ v ∈ (run Rounding.exact p o).trail, InBox o.avgLen v := by
+  intro v hv
+  rw [recurrences_closed_form p o hinit] at hv
+  obtain ⟨k, hk, rfl⟩ := List.mem_map.mp hv
+  exact inBox_of_not_drift p o.avgLen havg k (h k (by have := List.mem_range.mp hk; omega))
+
+open ColoVerif.GlobalLoop in
+/-- The pre-fix stop test (`Model/LegacyGlobalLoop.lean`) on a circuit without wirelength
+(`ub = lb = 0` throughout), with the distance test not firing and every solve succeeding: `0/0` is
+not below the gap tolerance, the loop runs to the step limit and applies the recurrences
+`maxNbSteps - nbInitialSteps` times — the defect that made the float penalty overflow. -/
+theorem legacy_zero_wirelength_runs_all_steps (R : Rounding) (p : Params) (o : Oracle) (hR : R.f 0 = 0)
+    (hinit : ∀ i, i ≤ p.nbInitialSteps → o.initOk i = true) (hok : ∀ j i, o.lbOk j i = true)
+    (hlb0 : o.lb0 = 0) (hub : ∀ j, o.ub j = 0) (hlb : ∀ j, o.lb j = 0)
+    (hd : ∀ j, ¬ o.dist j < distTol R p o) :
+    (legacyRun R p o).exit = .stepLimit ∧ (legacyRun R p o).updates = p.maxNbSteps - p.nbInitialSteps ∧
+    (legacyRun R p o).trail = (List.range (p.maxNbSteps - p.nbInitialSteps + 1)).map (varsAfter R p o) := by
+  have e : legacyRun R p o = _ := runWith_ok (legacyStopTest R p o) R p o hinit
+  have h := legacy_loop_all R p o hR hub hlb hd hok (p.maxNbSteps - p.nbInitialSteps) 0 (initSt R p o) hlb0
+  have ht := runWith_trail (legacyStopTest R p o) R p o hinit
+  rw [← e] at h
+  refine ⟨h.1, by rw [h.2]; omega, ?_⟩
+  show (runWith (legacyStopTest R p o) R p o).trail = _
+  rw [ht]
+  show (List.range ((legacyRun R p o).updates + 1)).map _ = _
+  rw [h.2]; simp
+
+namespace LoopExamples
+open ColoVerif.GlobalLoop
+
+/-- effort-like parameters: 2 initial steps, 12 steps, update factor 2 (for small numbers) -/
+def p0 : Params := ⟨2, 12, 1, 1 / 20, 2, 1, 2, 1 / 50, 2, 5, 1, 1, 9 / 10⟩
+/-- a circuit without wirelength: every value is 0, the cells are 3 average lengths from their targets -/
+def oZero : Oracle := ⟨3, fun _ => true, 0, fun _ => 0, fun _ => 10, fun _ _ => true, fun _ => 0⟩
+/-- a run whose gap closes at the fourth iteration -/
+def oGap : Oracle := ⟨3, fun _ => true, 10, fun j => 100 - 20 * j, fun j => 30 - j, fun _ _ => true, fun j => 30 + 10 * j⟩
+
+/-- non-vacuity of `zero_wirelength_exits_first_step`, and the contrast with the legacy loop on the
+same oracle: the current loop stops at once and leaves the penalty at 1/50, the legacy loop runs
+all 10 iterations and multiplies it by 2^10 -/
+example : (run Rounding.exact p0 oZero).exit = .stop .noWirelength ∧ (run Rounding.exact p0 oZero).updates = 0 :=
+  have h := zero_wirelength_exits_first_step Rounding.exact p0 oZero (fun _ _ => rfl) (by decide) (by decide +kernel)
+  ⟨h.1, h.2.2.1⟩
+
+example : (legacyRun Rounding.exact p0 oZero).exit = .stepLimit ∧ (legacyRun Rounding.exact p0 oZero).updates = 10 :=
+  have h := legacy_zero_wirelength_runs_all_steps Rounding.exact p0 oZero rfl (fun _ _ => rfl) (fun _ _ => rfl) rfl
+    (fun _ => rfl) (fun _ => rfl) (fun _ => by show ¬ ((10 : Rat) < distTol Rounding.exact p0 oZero); decide +kernel)
+  ⟨h.1, h.2.1⟩
+
+example : ((legacyRun Rounding.exact p0 oZero).trail.map (·.penalty)).getLast? = some (1024 / 50) := by decide +kernel
+
+/-- non-vacuity of `loop_terminates` / `recurrences_closed_form` / `drift_box_sound` on a run with
+several iterations: 4 iterations, 3 updates, stopped by the gap test, inside the box -/
+example : (run Rounding.exact p0 oGap).exit = .stop .gap ∧ (run Rounding.exact p0 oGap).updates = 3 ∧
+    (run Rounding.exact p0 oGap).events = [.lb, .lb, .lb, .ub, .lb, .ub, .lb, .ub, .lb, .ub, .ub] := by decide +kernel
+
+example : ∀ v ∈ (run Rounding.exact p0 oGap).trail, InBox 3 v :=
+  drift_box_sound p0 oGap (fun _ _ => rfl) (by decide +kernel) (by
+    have e : (run Rounding.exact p0 oGap).updates = 3 := by decide +kernel
+    rw [e]
+    intro k hk
+    have : k = 0 ∨ k = 1 ∨ k = 2 ∨ k = 3 := by omega
+    rcases this with rfl | rfl | rfl | rfl <;> decide +kernel)
+
+/-- the classifier does fire: with the same parameters the approximation distance `0.9^k` falls below 0.1 at
+`k = 22` — and the IEEE roundings differ from exact arithmetic already at the first update -/
+example : driftOutOfBox p0 22 = true ∧ driftOutOfBox p0 21 = false := by decide +kernel
+
+example : (varsAfter Rounding.ieee p0 oGap 1).approx ≠ (varsAfter Rounding.exact p0 oGap 1).approx := by decide +kernel
+
+end LoopExamples
 
 end ColoVerif.C06
